@@ -45,6 +45,72 @@ def _follow(fn, local, seen):
     return out
 
 
+def _compared_on_every_path(h, site_bb, x):
+    """every path from entry to site_bb on which the Option parameter x is Some executes an ordering comparison of its
+    payload (None edges of discriminant switches on x are cut: nothing to validate there)"""
+    from ..linear import Linear
+    L = Linear(h)
+    V = set()
+    for bb, j, st in h.stmts():
+        rv = st["rv"]
+        if rv["k"] == "bin" and rv["op"] in ("Gt", "Ge", "Lt", "Le"):
+            for a in (rv["a"], rv["b"]):
+                if _payload_arg(h, a) == x or any(s_.key[0] == "arg" and s_.key[1] == x for s_ in L.of(a).symbols()):
+                    V.add(bb)
+    cut = set()
+    for bb, b in enumerate(h.blocks):
+        t = b["term"]
+        if t["k"] != "switch" or b.get("cleanup"):
+            continue
+        o = h.origin(t["op"])
+        if o[0] == "rv" and o[1]["rv"]["k"] == "disc" and _payload_arg(h, {"copy": o[1]["rv"]["place"]}) == x:
+            vals = dict((v, tg) for v, tg in t["targets"])
+            none_t = vals.get(0, t["otherwise"] if 0 not in vals else None)
+            if none_t is not None:
+                cut.add((bb, none_t))
+    seen = {0}
+    st_ = [0]
+    while st_:
+        b0 = st_.pop()
+        if b0 in V:
+            continue
+        for y in h.succ[b0]:
+            if (b0, y) in cut or y in seen:
+                continue
+            seen.add(y)
+            st_.append(y)
+    return site_bb not in seen or site_bb in V
+
+
+def _callers_guard(facts, f, rts):
+    """caller-side form of the range idiom: the index is a parameter of f and at every call site of f the corresponding
+    argument was compared (ordering test) on every path before the call"""
+    params = sorted({r[1] for r in rts if r[0] == "a"})
+    if not params or any(r[0] != "a" for r in rts):
+        return False
+    sites = []
+    for p, h in facts.fns.items():
+        if h.crate != "marwood" or "::tests::" in p:
+            continue
+        for bb, t in h.calls():
+            if callee(t) == f.path:
+                sites.append((h, bb, t))
+    if not sites:
+        return False
+    for h, bb, t in sites:
+        for k in params:
+            if k - 1 >= len(t["args"]):
+                return False
+            ar = roots(h, t["args"][k - 1])
+            cmp_guards = [g for g in guard_shapes(h, bb, ar) if g.startswith(("(Gt", "(Ge", "(Lt", "(Le"))]
+            if cmp_guards:
+                continue
+            xs = {r[1] for r in ar if r[0] == "a"}
+            if len(xs) != 1 or any(r[0] != "a" for r in ar) or not _compared_on_every_path(h, bb, list(xs)[0]):
+                return False
+    return True
+
+
 def r15c(ctx, rep, rule="R15c"):
     facts = ctx["facts"]
     rep.rule(rule, "a character that is not there is an error: in the string procedures every lookup of the idx-th character "
@@ -92,8 +158,9 @@ def r15c(ctx, rep, rule="R15c"):
                     else:
                         bad.append("the None arm of the match on it does not return an error")
                 elif kind == "default":
-                    gs = guard_shapes(f, b2, roots(f, t["args"][1]) if len(t["args"]) > 1 else None)
-                    if gs:
+                    rts = roots(f, t["args"][1]) if len(t["args"]) > 1 else set()
+                    gs = guard_shapes(f, b2, rts)
+                    if gs or _callers_guard(facts, f, rts):
                         good += 1
                     else:
                         bad.append("its absent outcome is replaced by a default through %s" % (callee(x) or "").rsplit("::", 1)[-1])
@@ -107,10 +174,110 @@ def r15c(ctx, rep, rule="R15c"):
     rep.floor(rule, "character lookups by index (Iterator::nth over chars/char_indices) in the string procedures", n, 4)
 
 
+def _payload_arg(fn, op, depth=8):
+    """index of the Option-typed parameter whose Some payload `op` is (following copies and tuple packing), else None"""
+    cur = op
+    for _ in range(depth):
+        o = fn.origin(cur)
+        if o[0] == "arg":
+            return o[1]
+        if o[0] == "rv" and o[1]["rv"]["k"] == "agg" and o[1]["rv"].get("adt") == "(tuple)":
+            pj = [e for e in (o[2] or []) if isinstance(e, dict) and "f" in e]
+            if pj:
+                k = pj[0]["f"]
+                if k < len(o[1]["rv"]["ops"]):
+                    cur = o[1]["rv"]["ops"][k]
+                    continue
+        return None
+    return None
+
+
+def r15d(ctx, rep, rule="R15d"):
+    from ..linear import Linear
+    facts = ctx["facts"]
+    rep.rule(rule, "a range helper answers Ok only for validated indices: in every function of the string procedures that "
+             "takes optional character indices (Option<usize> parameters: start / end), each path from entry to the "
+             "construction of an Ok result passes, for each such parameter, either its None edge (nothing to validate), a "
+             "comparison of its payload with the character count, or a validating lookup (char_offset / "
+             "char_offset_inclusive, whose absent outcome is an Err by R15c). A shortcut return taken before an index was "
+             "looked at accepts out-of-range ranges — and string-fill! then inserts characters instead of replacing them.")
+    n = 0
+    for p, f in sorted(facts.fns.items()):
+        if not p.startswith(STRMOD) or "::{closure" in p:
+            continue
+        params = [i for i in range(1, f.argc + 1) if f.locals[i].replace(" ", "") == "std::option::Option<usize>"]
+        if not params:
+            continue
+        L = Linear(f)
+        oks = [bb for bb, j, st in f.stmts() if st["lhs"]["l"] == 0 and not st["lhs"]["p"] and st["rv"]["k"] == "agg"
+               and st["rv"].get("variant") == "Ok"]
+        counts = set()
+        for bb, t in f.calls():
+            if (callee(t) or "").endswith("Iterator>::count") or (callee(t) or "").endswith("Iterator::count"):
+                if not t["dest"]["p"]:
+                    counts.add(t["dest"]["l"])
+
+        def is_count(op):
+            o = f.origin(op)
+            return o[0] == "call" and ((callee(o[1]) or "").endswith("::count"))
+
+        for x in params:
+            n += 1
+            nm = f.local_name(x)
+            V = set()
+            for bb, j, st in f.stmts():
+                rv = st["rv"]
+                if rv["k"] == "bin" and rv["op"] in ("Gt", "Ge", "Lt", "Le"):
+                    for a, b in ((rv["a"], rv["b"]), (rv["b"], rv["a"])):
+                        if is_count(b) and any(s_.key[0] == "arg" and s_.key[1] == x for s_ in L.of(a).symbols()) or \
+                                (is_count(b) and _payload_arg(f, a) == x):
+                            V.add(bb)
+            for bb, t in f.calls():
+                c = callee(t) or ""
+                if c.startswith(STRMOD) and c in facts.fns:
+                    for a in t["args"]:
+                        if any(s_.key[0] == "arg" and s_.key[1] == x for s_ in L.of(a).symbols()) or _payload_arg(f, a) == x:
+                            V.add(t["target"] if t.get("target") is not None else bb)
+            cut = set()
+            for bb, b in enumerate(f.blocks):
+                t = b["term"]
+                if t["k"] != "switch" or b.get("cleanup"):
+                    continue
+                o = f.origin(t["op"])
+                if o[0] == "rv" and o[1]["rv"]["k"] == "disc":
+                    if _payload_arg(f, {"copy": o[1]["rv"]["place"]}) == x:
+                        vals = dict((v, tg) for v, tg in t["targets"])
+                        none_t = vals.get(0, t["otherwise"] if 0 not in vals else None)
+                        if none_t is not None:
+                            cut.add((bb, none_t))
+            # paths entry -> Ok that avoid V and the None edges
+            seen = {0}
+            st_ = [0]
+            while st_:
+                b0 = st_.pop()
+                if b0 in V:
+                    continue
+                for y in f.succ[b0]:
+                    if (b0, y) in cut or y in seen:
+                        continue
+                    seen.add(y)
+                    st_.append(y)
+            bad = sorted(bb for bb in oks if bb in seen and bb not in V)
+            key = "%s|%s|%s" % (rule, f.short.rsplit("::", 1)[-1], nm)
+            if bad:
+                rep.fail(rule, key, "%s can return Ok without having compared `%s` with the character count or looked it up: an "
+                         "out-of-range %s is accepted on that path (%d Ok exit(s) reachable unvalidated)" % (f.short, nm, nm, len(bad)),
+                         [f.blocks[bad[0]]["stmts"][0]["loc"]] if f.blocks[bad[0]]["stmts"] else [f.span])
+            else:
+                rep.ok(rule, key, "%s: every Ok exit is reached only after `%s` was validated (or was absent)" % (f.short, nm), [f.span])
+    rep.floor(rule, "optional index parameters of string range helpers", n, 2)
+
+
 def run(ctx, rep):
     units.r15a(ctx, rep)
     units.r15b(ctx, rep)
     r15c(ctx, rep)
+    r15d(ctx, rep)
     rep.not_decided += ["agreement of each procedure with a Vec<char> model (value-level)",
                         "that mutators change exactly the addressed characters",
                         "panic sites of these files (C06's inventory)"]
